@@ -526,6 +526,409 @@ theorem ma_weights_le_window (window : Int) (o : Datum T) (q : List (Datum T)) (
 theorem ma_weights_length (cut : Int) (q : List (Datum T)) : (Ma.weightsNs cut q).length = q.length :=
   weightsNs_length cut q
 
+/-! ### A5: error and absent events -/
+
+/-- an error event: the error is cached and returned by both `update` and `get`, the queue is emptied -/
+theorem ma_error_event (scale : T → F → T) (add : T → T → Except Panic T) (fin : T → F → T)
+    (zero : Option T) (window : Int) (s : MaS T) (e : Err) :
+    Ma.step scale add fin zero window s (.error e) = .ok (⟨.error e, []⟩, .error e) ∧
+    Ma.get (⟨.error e, []⟩ : MaS T) = .error e := ⟨rfl, rfl⟩
+
+/-- an absent event: `update` returns `Ok(())`, the queue is untouched, the value is untouched except that a
+cached error becomes `Ok(None)` -/
+theorem ma_absent_event (scale : T → F → T) (add : T → T → Except Panic T) (fin : T → F → T)
+    (zero : Option T) (window : Int) (s : MaS T) :
+    Ma.step scale add fin zero window s (.ok none) =
+      .ok (⟨match s.value with | .error _ => .ok none | .ok v => .ok v, s.queue⟩, .ok ()) := by
+  obtain ⟨v, q⟩ := s
+  cases v <;> rfl
+
+/-- in particular an absent event on a state without cached error changes nothing -/
+theorem ma_absent_event_ok (scale : T → F → T) (add : T → T → Except Panic T) (fin : T → F → T)
+    (zero : Option T) (window : Int) (s : MaS T) (v : Option (Datum T)) (h : s.value = .ok v) :
+    Ma.step scale add fin zero window s (.ok none) = .ok (s, .ok ()) := by
+  obtain ⟨v', q⟩ := s
+  cases h
+  rfl
+
+/-! ### A6: the output formula -/
+
+/-- `Σ value_i * w_i` summed in queue order with a pure `plus`, from `zero` (generic impl) or from the first
+term (Quantity impl) -/
+def maSum (scale : T → F → T) (plus : T → T → T) : Option T → List (T × F) → Option T
+  | some z, l => some (l.foldl (fun a p => plus a (scale p.1 p.2)) z)
+  | none, [] => none
+  | none, p :: rest => some (rest.foldl (fun a p => plus a (scale p.1 p.2)) (scale p.1 p.2))
+
+theorem accumulate_some_eq (scale : T → F → T) (add : T → T → Except Panic T) (plus : T → T → T)
+    (hadd : ∀ a b, add a b = .ok (plus a b)) (l : List (T × F)) (a : T) :
+    Ma.accumulate scale add (some a) l = .ok (some (l.foldl (fun a p => plus a (scale p.1 p.2)) a)) := by
+  induction l generalizing a with
+  | nil => rfl
+  | cons p rest ih =>
+    obtain ⟨v, w⟩ := p
+    simp only [Ma.accumulate, hadd, List.foldl_cons]
+    exact ih _
+
+theorem accumulate_eq_maSum (scale : T → F → T) (add : T → T → Except Panic T) (plus : T → T → T)
+    (hadd : ∀ a b, add a b = .ok (plus a b)) (zero : Option T) (l : List (T × F)) :
+    Ma.accumulate scale add zero l = .ok (maSum scale plus zero l) := by
+  cases zero with
+  | some z => exact accumulate_some_eq scale add plus hadd l z
+  | none =>
+    cases l with
+    | nil => rfl
+    | cons p rest =>
+      obtain ⟨v, w⟩ := p
+      simp only [Ma.accumulate, maSum]
+      exact accumulate_some_eq scale add plus hadd rest _
+
+/-- **A6**: on a present sample `o` (any previous state, `window > 0`) the new queue is the non-incremental
+`maWindow` (push, drop the front while `time ≤ o.time − window`) and the new value is
+`fin (Σ_in order scale v_i (secs w_i)) (secs window)` at time `o.time`; `update` returns `Ok(())`. -/
+theorem ma_output_formula (scale : T → F → T) (add : T → T → Except Panic T) (plus : T → T → T)
+    (fin : T → F → T) (zero : Option T) (window : Int) (hw : 0 < window)
+    (hadd : ∀ a b, add a b = .ok (plus a b)) (s : MaS T) (o : Datum T) :
+    ∃ v, maSum scale plus zero (maTerms (o.time - window) (maWindow window s.queue o)) = some v ∧
+      Ma.step scale add fin zero window s (.ok (some o)) =
+        .ok (⟨.ok (some ⟨o.time, fin v (secs window)⟩), maWindow window s.queue o⟩, .ok ()) := by
+  obtain ⟨pre, q', v, _, hacc, hstep, _, _, hwin⟩ :=
+    ma_step_present_ok scale add fin zero window hw (fun _ => True) (fun _ => True) (fun _ _ _ => trivial)
+      (fun a b _ _ => ⟨plus a b, hadd a b, trivial⟩) (fun _ _ => trivial) s o (fun _ _ => trivial) trivial
+  rw [hwin] at hacc hstep
+  rw [accumulate_eq_maSum scale add plus hadd] at hacc
+  injection hacc with hacc
+  exact ⟨v, hacc, hstep⟩
+
+/-- the weights that enter the formula are the nanosecond weights converted by `secs`, one per sample,
+paired in queue order -/
+theorem maTerms_eq (cut : Int) (q : List (Datum T)) :
+    (maTerms (F := F) cut q).map Prod.fst = q.map (·.value) ∧
+    (maTerms (F := F) cut q).map Prod.snd = (Ma.weightsNs cut q).map (fun n => (secs n : F)) := by
+  have hl : (q.map (·.value)).length = ((Ma.weightsNs cut q).map (fun n => (secs n : F))).length := by
+    simp [weightsNs_length]
+  constructor
+  · simp only [maTerms]
+    rw [List.map_fst_zip]
+    omega
+  · simp only [maTerms]
+    rw [List.map_snd_zip]
+    omega
+
+/-! ### the window over a whole history: exactly the samples since the last error that are newer than
+`o.time − window` -/
+
+theorem dropWhile_of_all {α : Type} (p : α → Bool) (a l : List α) (h : ∀ x ∈ a, p x = true) :
+    (a ++ l).dropWhile p = l.dropWhile p := by
+  induction a with
+  | nil => rfl
+  | cons x xs ih =>
+    have hx := h x (List.mem_cons_self ..)
+    simp only [List.cons_append, List.dropWhile_cons, hx, if_true]
+    exact ih (fun y hy => h y (List.mem_cons_of_mem _ hy))
+
+theorem sorted_dropWhile_eq_filter (c : Int) (l : List (Datum T)) (hs : Sorted l) :
+    l.dropWhile (fun d => decide (d.time ≤ c)) = l.filter (fun d => decide (c < d.time)) := by
+  induction l with
+  | nil => rfl
+  | cons x xs ih =>
+    have hp := List.pairwise_cons.1 hs
+    by_cases hx : x.time ≤ c
+    · have hx' : ¬ c < x.time := by omega
+      simp only [List.dropWhile_cons, List.filter_cons, hx, hx', decide_true, decide_false, if_true]
+      exact ih hp.2
+    · have hx' : c < x.time := by omega
+      simp only [List.dropWhile_cons, List.filter_cons, hx, hx', decide_true, decide_false]
+      have : xs.filter (fun d => decide (c < d.time)) = xs := by
+        apply List.filter_eq_self.2
+        intro d hd
+        have := hp.1 d hd
+        simp only [decide_eq_true_eq]
+        omega
+      simp [this]
+
+theorem sinceReset_append (acc : List (Datum T)) (l₁ l₂ : List (Output T)) :
+    sinceReset acc (l₁ ++ l₂) = sinceReset (sinceReset acc l₁) l₂ := by
+  induction l₁ generalizing acc with
+  | nil => rfl
+  | cons e es ih =>
+    match e with
+    | .ok (some d) => exact ih _
+    | .ok none => exact ih _
+    | .error _ => exact ih _
+
+/-- inductive form: the queue is always a suffix of the samples since the last error; what has been
+dropped is too old for every coming sample; the samples since the last error stay sorted -/
+theorem ma_run_window (scale : T → F → T) (add : T → T → Except Panic T) (fin : T → F → T)
+    (zero : Option T) (window : Int) (hw : 0 < window) (fut : List Int)
+    (evs : List (Output T)) (hmono : (presentTimes evs ++ fut).Pairwise (· ≤ ·))
+    (s s' : MaS T) (hrun : runE (Ma.step scale add fin zero window) s evs = .ok s')
+    (acc A : List (Datum T)) (hacc : acc = A ++ s.queue)
+    (hA : ∀ d ∈ A, ∀ t ∈ presentTimes evs ++ fut, d.time ≤ t - window)
+    (hsort : Sorted acc) (hfut : ∀ d ∈ acc, ∀ t ∈ presentTimes evs ++ fut, d.time ≤ t) :
+    ∃ A', sinceReset acc evs = A' ++ s'.queue ∧ (∀ d ∈ A', ∀ t ∈ fut, d.time ≤ t - window) ∧
+      Sorted (sinceReset acc evs) ∧ (∀ d ∈ sinceReset acc evs, ∀ t ∈ fut, d.time ≤ t) := by
+  induction evs generalizing s acc A with
+  | nil =>
+    simp only [runE] at hrun
+    injection hrun with hrun
+    subst hrun
+    exact ⟨A, hacc, fun d hd t ht => hA d hd t (by simpa [presentTimes] using ht), hsort,
+      fun d hd t ht => hfut d hd t (by simpa [presentTimes] using ht)⟩
+  | cons e es ih =>
+    match e with
+    | .error er =>
+      simp only [runE, Ma.step] at hrun
+      simp only [presentTimes] at hmono hA hfut
+      exact ih hmono _ hrun [] [] rfl (fun _ h => by cases h) List.Pairwise.nil (fun _ h => by cases h)
+    | .ok none =>
+      simp only [presentTimes] at hmono hA hfut
+      have hstep := ma_absent_event scale add fin zero window s
+      simp only [runE, hstep] at hrun
+      exact ih hmono _ hrun acc A hacc hA hsort hfut
+    | .ok (some o) =>
+      simp only [presentTimes, List.cons_append, List.pairwise_cons] at hmono
+      simp only [presentTimes, List.cons_append, List.mem_cons, forall_eq_or_imp] at hA hfut
+      cases hstep : Ma.step scale add fin zero window s (.ok (some o)) with
+      | error p => simp only [runE, hstep] at hrun; cases hrun
+      | ok r =>
+        simp only [runE, hstep] at hrun
+        obtain ⟨pre, q', e1, ht, hp, _⟩ := trim_snoc (o.time - window) s.queue o (by omega)
+        have hq : r.1.queue = q' ++ [o] := by
+          simp only [Ma.step, ht] at hstep
+          split at hstep
+          · cases hstep
+          · cases hstep
+          · injection hstep with hstep
+            rw [← hstep]
+        simp only [sinceReset]
+        refine ih hmono.2 _ hrun (acc ++ [o]) (A ++ pre) ?_ ?_ ?_ ?_
+        · rw [hq, hacc, e1]; simp
+        · intro d hd t ht'
+          rcases List.mem_append.1 hd with hd | hd
+          · exact (hA d hd).2 t ht'
+          · have h1 := hp d hd
+            have h2 := hmono.1 t ht'
+            omega
+        · refine List.pairwise_append.2 ⟨hsort, List.pairwise_singleton _ _, ?_⟩
+          intro a ha b hb
+          simp at hb
+          subst hb
+          exact (hfut a ha).1
+        · intro d hd t ht'
+          rcases List.mem_append.1 hd with hd | hd
+          · exact (hfut d hd).2 t ht'
+          · simp at hd
+            subst hd
+            exact hmono.1 t ht'
+
+/-- **The window is what the property says**: after a non-decreasing history `pre` followed by a present
+sample `o`, the queue holds exactly the samples received since the last error event (including `o`) whose
+timestamp is newer than `o.time − window`, in arrival order.  (No assumption on `add`: if the run did not
+panic, this is the queue.) -/
+theorem ma_queue_is_window (scale : T → F → T) (add : T → T → Except Panic T) (fin : T → F → T)
+    (zero : Option T) (window : Int) (hw : 0 < window) (pre : List (Output T)) (o : Datum T)
+    (hmono : NonDecr (pre ++ [.ok (some o)])) (s : MaS T)
+    (hrun : runE (Ma.step scale add fin zero window) Ma.init (pre ++ [.ok (some o)]) = .ok s) :
+    s.queue = (sinceReset [] (pre ++ [.ok (some o)])).filter (fun d => decide (o.time - window < d.time)) ∧
+    sinceReset [] (pre ++ [.ok (some o)]) = sinceReset [] pre ++ [o] := by
+  have hpt : presentTimes (pre ++ [Except.ok (some o)]) = presentTimes pre ++ [o.time] := by
+    rw [presentTimes_append]; rfl
+  simp only [NonDecr, hpt] at hmono
+  rw [runE_append] at hrun
+  cases h1 : runE (Ma.step scale add fin zero window) Ma.init pre with
+  | error p => rw [h1] at hrun; cases hrun
+  | ok s1 =>
+    rw [h1] at hrun
+    obtain ⟨A, hA1, hA2, hsort, hle⟩ := ma_run_window scale add fin zero window hw [o.time] pre hmono
+      Ma.init s1 h1 [] [] rfl (fun _ h => by cases h) List.Pairwise.nil (fun _ h => by cases h)
+    have hsr : sinceReset [] (pre ++ [Except.ok (some o)]) = sinceReset [] pre ++ [o] := by
+      rw [sinceReset_append]; rfl
+    refine ⟨?_, hsr⟩
+    have hsorted : Sorted (sinceReset [] pre ++ [o]) := by
+      refine List.pairwise_append.2 ⟨hsort, List.pairwise_singleton _ _, ?_⟩
+      intro a ha b hb
+      simp at hb
+      subst hb
+      exact hle a ha b.time (by simp)
+    rw [hsr, ← sorted_dropWhile_eq_filter _ _ hsorted, hA1, List.append_assoc,
+      dropWhile_of_all _ A _ (fun x hx => by simpa using hA2 x hx o.time (by simp))]
+    cases hstep : Ma.step scale add fin zero window s1 (.ok (some o)) with
+    | error p => simp only [runE, hstep] at hrun; cases hrun
+    | ok r =>
+      simp only [runE, hstep] at hrun
+      injection hrun with hrun
+      subst hrun
+      simp only [Ma.step] at hstep
+      cases ht : Ma.trim (o.time - window) (s1.queue ++ [o]) with
+      | error p => rw [ht] at hstep; cases hstep
+      | ok q =>
+        rw [ht] at hstep
+        simp only at hstep
+        have hq := trim_ok_eq_dropWhile _ _ _ ht
+        split at hstep
+        · cases hstep
+        · cases hstep
+        · injection hstep with hstep
+          rw [← hstep]
+          exact hq
+
+/-! ## tier S: EWMA -/
+
+/-- `λ = 1 − (1 − smoothing)^Δt`, `Δt` given in nanoseconds and converted like the code does -/
+def ewmaLambda (smoothing : F) (dtNs : Int) : F := c1 - FloatLike.powf (c1 - smoothing) (secs dtNs)
+
+/-- what a present sample `o` does to a previous value `pv` that is `dtNs` old -/
+def ewmaNext (scale : T → F → T) (add : T → T → Except Panic T) (smoothing : F) (pv : T) (dtNs : Int)
+    (o : Datum T) : Except Panic (EwmaS T × UpdRet) :=
+  match add (scale pv (c1 - ewmaLambda smoothing dtNs)) (scale o.value (ewmaLambda smoothing dtNs)) with
+  | .error p => .error p
+  | .ok v => .ok (⟨.ok (some ⟨o.time, v⟩), some o.time⟩, .ok ())
+
+/-- **B, formula**: with a previous value `prev` recorded at `tp`, the new value is
+`add (scale prev (1 − L)) (scale new L)`, `L = 1 − powf (1 − smoothing) (secs (o.time − tp))`, stamped `o.time`. -/
+theorem ewma_formula (scale : T → F → T) (add : T → T → Except Panic T) (smoothing : F)
+    (s : EwmaS T) (o prev : Datum T) (tp : Int) (hv : s.value = .ok (some prev)) (ht : s.updateTime = some tp) :
+    Ewma.step scale add smoothing s (.ok (some o)) = ewmaNext scale add smoothing prev.value (o.time - tp) o := by
+  obtain ⟨v, t⟩ := s
+  cases hv
+  cases ht
+  rfl
+
+/-- **B, first sample**: when no value is held (initially, after an error, after error-then-absent) the same
+formula is applied with `prev = o` and `Δt = 0` -/
+theorem ewma_first_sample (scale : T → F → T) (add : T → T → Except Panic T) (smoothing : F)
+    (s : EwmaS T) (o : Datum T) (hv : ∀ v, s.value ≠ .ok (some v)) :
+    Ewma.step scale add smoothing s (.ok (some o)) = ewmaNext scale add smoothing o.value 0 o := by
+  obtain ⟨v, t⟩ := s
+  match v, hv with
+  | .ok (some v), hv => exact absurd rfl (hv v)
+  | .ok none, _ => simp only [Ewma.step, ewmaNext, ewmaLambda, Int.sub_self]; rfl
+  | .error _, _ => simp only [Ewma.step, ewmaNext, ewmaLambda, Int.sub_self]; rfl
+
+/-- the three ways of holding no value -/
+theorem ewma_no_value_cases (scale : T → F → T) (add : T → T → Except Panic T) (smoothing : F) (e : Err)
+    (s : EwmaS T) :
+    (∀ v, (Ewma.init : EwmaS T).value ≠ .ok (some v)) ∧
+    (∀ s1 r, Ewma.step scale add smoothing s (.error e) = .ok (s1, r) → ∀ v, s1.value ≠ .ok (some v)) ∧
+    (∀ s1 r s2 r2, Ewma.step scale add smoothing s (.error e) = .ok (s1, r) →
+      Ewma.step scale add smoothing s1 (.ok none) = .ok (s2, r2) → ∀ v, s2.value ≠ .ok (some v)) := by
+  refine ⟨fun v h => (by cases h), ?_, ?_⟩
+  · intro s1 r h v hv
+    simp only [Ewma.step] at h
+    injection h with h
+    injection h with h1 _
+    rw [← h1] at hv
+    cases hv
+  · intro s1 r s2 r2 h h2 v hv
+    simp only [Ewma.step] at h
+    injection h with h
+    injection h with h1 _
+    rw [← h1] at h2
+    simp only [Ewma.step] at h2
+    injection h2 with h2
+    injection h2 with h3 _
+    rw [← h3] at hv
+    cases hv
+
+/-- error event: cached and returned, `update_time` cleared -/
+theorem ewma_error_event (scale : T → F → T) (add : T → T → Except Panic T) (smoothing : F)
+    (s : EwmaS T) (e : Err) :
+    Ewma.step scale add smoothing s (.error e) = .ok (⟨.error e, none⟩, .error e) ∧
+    Ewma.get (⟨.error e, none⟩ : EwmaS T) = .error e := ⟨rfl, rfl⟩
+
+/-- absent event: `Ok(())`; nothing changes except that a cached error becomes `Ok(None)` -/
+theorem ewma_absent_event (scale : T → F → T) (add : T → T → Except Panic T) (smoothing : F) (s : EwmaS T) :
+    Ewma.step scale add smoothing s (.ok none) =
+      .ok (match s.value with | .error _ => ⟨.ok none, none⟩ | .ok _ => s, .ok ()) := by
+  obtain ⟨v, t⟩ := s
+  cases v <;> rfl
+
+/-- the invariant that makes `.expect("update_time must be Some if value is")` unreachable -/
+def EwmaInv (s : EwmaS T) : Prop := ∀ v, s.value = .ok (some v) → s.updateTime = some v.time
+
+theorem ewmaNext_ok (scale : T → F → T) (add : T → T → Except Panic T) (smoothing : F) (P : T → Prop)
+    (hs : ∀ v w, P v → P (scale v w)) (ha : ∀ a b, P a → P b → ∃ c, add a b = .ok c ∧ P c)
+    (pv : T) (dt : Int) (o : Datum T) (hpv : P pv) (ho : P o.value) :
+    ∃ c, ewmaNext scale add smoothing pv dt o = .ok (⟨.ok (some ⟨o.time, c⟩), some o.time⟩, .ok ()) ∧ P c := by
+  obtain ⟨c, hc, pc⟩ := ha _ _ (hs pv (c1 - ewmaLambda smoothing dt) hpv) (hs o.value (ewmaLambda smoothing dt) ho)
+  exact ⟨c, by simp only [ewmaNext, hc], pc⟩
+
+/-- one update preserves the invariant and never panics (`P`: a class containing the samples, closed under
+`scale`, on which `add` is total and closed; for f32 everything) -/
+theorem ewma_step_ok (scale : T → F → T) (add : T → T → Except Panic T) (smoothing : F) (P : T → Prop)
+    (hs : ∀ v w, P v → P (scale v w)) (ha : ∀ a b, P a → P b → ∃ c, add a b = .ok c ∧ P c)
+    (s : EwmaS T) (inp : Output T) (hinv : EwmaInv s) (hsv : ∀ v, s.value = .ok (some v) → P v.value)
+    (hin : ∀ d, inp = .ok (some d) → P d.value) :
+    ∃ s' r, Ewma.step scale add smoothing s inp = .ok (s', r) ∧ EwmaInv s' ∧
+      (∀ v, s'.value = .ok (some v) → P v.value) := by
+  match inp, hin with
+  | .error e, _ => exact ⟨_, _, rfl, fun v h => (by cases h), fun v h => (by cases h)⟩
+  | .ok none, _ =>
+    rw [ewma_absent_event]
+    obtain ⟨v, t⟩ := s
+    cases v with
+    | error e => exact ⟨_, _, rfl, fun v h => (by cases h), fun v h => (by cases h)⟩
+    | ok v => exact ⟨_, _, rfl, hinv, hsv⟩
+  | .ok (some o), hin =>
+    have ho := hin o rfl
+    by_cases hv : ∃ prev, s.value = .ok (some prev)
+    · obtain ⟨prev, hv⟩ := hv
+      rw [ewma_formula scale add smoothing s o prev prev.time hv (hinv prev hv)]
+      obtain ⟨c, hc, pc⟩ := ewmaNext_ok scale add smoothing P hs ha prev.value (o.time - prev.time) o (hsv prev hv) ho
+      refine ⟨_, _, hc, ?_, ?_⟩
+      · intro v h; injection h with h; injection h with h; rw [← h]
+      · intro v h; injection h with h; injection h with h; rw [← h]; exact pc
+    · rw [ewma_first_sample scale add smoothing s o (fun v h => hv ⟨v, h⟩)]
+      obtain ⟨c, hc, pc⟩ := ewmaNext_ok scale add smoothing P hs ha o.value 0 o ho ho
+      refine ⟨_, _, hc, ?_, ?_⟩
+      · intro v h; injection h with h; injection h with h; rw [← h]
+      · intro v h; injection h with h; injection h with h; rw [← h]; exact pc
+
+/-- **B, no panic, every history**: from the initial state (or any state satisfying the invariant) no EWMA
+update panics, whatever the events and timestamps (monotone or not), and the invariant holds at the end. -/
+theorem ewma_no_panic_closed (scale : T → F → T) (add : T → T → Except Panic T) (smoothing : F) (P : T → Prop)
+    (hs : ∀ v w, P v → P (scale v w)) (ha : ∀ a b, P a → P b → ∃ c, add a b = .ok c ∧ P c)
+    (evs : List (Output T)) (hin : ∀ d, Except.ok (some d) ∈ evs → P d.value)
+    (s : EwmaS T) (hinv : EwmaInv s) (hsv : ∀ v, s.value = .ok (some v) → P v.value) :
+    ∃ s', runE (Ewma.step scale add smoothing) s evs = .ok s' ∧ EwmaInv s' := by
+  induction evs generalizing s with
+  | nil => exact ⟨s, rfl, hinv⟩
+  | cons e es ih =>
+    obtain ⟨s1, r, hstep, hinv1, hsv1⟩ := ewma_step_ok scale add smoothing P hs ha s e hinv hsv
+      (fun d hd => hin d (by rw [hd]; exact List.mem_cons_self ..))
+    simp only [runE, hstep]
+    exact ih (fun d hd => hin d (List.mem_cons_of_mem _ hd)) s1 hinv1 hsv1
+
+theorem ewma_init_inv : EwmaInv (Ewma.init : EwmaS T) := fun v h => by cases h
+
+/-- B, no panic, `add` total -/
+theorem ewma_no_panic (scale : T → F → T) (add : T → T → Except Panic T) (smoothing : F)
+    (hadd : ∀ a b, ∃ c, add a b = .ok c) (evs : List (Output T)) :
+    ∃ s', runE (Ewma.step scale add smoothing) Ewma.init evs = .ok s' := by
+  obtain ⟨s', h, _⟩ := ewma_no_panic_closed scale add smoothing (fun _ => True) (fun _ _ _ => trivial)
+    (fun a b _ _ => by obtain ⟨c, hc⟩ := hadd a b; exact ⟨c, hc, trivial⟩) evs (fun _ _ => trivial)
+    Ewma.init ewma_init_inv (fun _ _ => trivial)
+  exact ⟨s', h⟩
+
+theorem ewma_no_panic_f32 (smoothing : F) (evs : List (Output F)) :
+    ∃ s', runE (Ewma.step scaleF addF smoothing) Ewma.init evs = .ok s' :=
+  ewma_no_panic scaleF addF smoothing (fun a b => ⟨a + b, rfl⟩) evs
+
+theorem scaleQdl_unit (q : Quantity F) (x : F) : (scaleQdl true q x).unit = q.unit := by
+  simp [scaleQdl, Quantity.mul, Quantity.dimensionless, DIMENSIONLESS, DUnit.new, DUnit.mul]
+
+/-- B, no panic, Quantity instantiation: all samples carry the same unit (`chk` arbitrary) -/
+theorem ewma_no_panic_quantity (chk : Bool) (smoothing : F) (u : DUnit)
+    (evs : List (Output (Quantity F))) (hin : ∀ d, Except.ok (some d) ∈ evs → d.value.unit = u) :
+    ∃ s', runE (Ewma.step (scaleQdl chk) (Quantity.add chk) smoothing) Ewma.init evs = .ok s' := by
+  obtain ⟨s', h, _⟩ := ewma_no_panic_closed (scaleQdl chk) (Quantity.add chk) smoothing
+    (fun q => chk = true → q.unit = u)
+    (fun v w hv hc => by subst hc; rw [scaleQdl_unit]; exact hv rfl)
+    (fun a b pa pb => ⟨_, qadd_same_unit chk a b (fun hc => (pa hc).trans (pb hc).symm), pa⟩)
+    evs (fun d hd _ => hin d hd) Ewma.init ewma_init_inv (fun _ h => by cases h)
+  exact ⟨s', h⟩
+
 end S
 
 end Rrtk.Thm.C12
